@@ -97,6 +97,64 @@ def lexAux : Nat → List Char → Option (List Tok)
       | '@', _ => one .at | ',', _ => one .comma | '^', _ => one .power
       | _, _ => none
 
+/-! ### the tokens in front of the first lexing error
+
+ANTLR's token stream asks the lexer for tokens on demand (`BufferedTokenStream`): a character sequence that does
+not lex is only *reported* when the parser fetches a token at or beyond it.  `lexPrefixAux` is `lexAux` returning
+the tokens produced so far where `lexAux` fails. -/
+def lexPrefixAux : Nat → List Char → List Tok
+  | 0, _ => []
+  | _, [] => []
+  | f+1, ch :: cs =>
+    if ch = ' ' || ch = '\t' || ch = '\r' || ch = '\n' then lexPrefixAux f cs else
+    if ch = '"' then
+      match spanString cs with
+      | none => []
+      | some (body, rest) => Tok.str (String.ofList ('"' :: body)) :: lexPrefixAux f rest
+    else if isIdChar ch then
+      -- a word; a run of digits may continue as FLOAT `digits . digits`
+      let (w, rest) := spanChars isIdChar (ch :: cs)
+      if w.all isDigit then
+        match rest with
+        | '.' :: d :: rest' =>
+          if isDigit d then
+            let (frac, rest'') := spanChars isDigit (d :: rest')
+            Tok.float (String.ofList (w ++ '.' :: frac)) :: lexPrefixAux f rest''
+          else Tok.int (String.ofList w) :: lexPrefixAux f rest
+        | _ => Tok.int (String.ofList w) :: lexPrefixAux f rest
+      else wordTok (String.ofList w) :: lexPrefixAux f rest
+    else
+      let one (t : Tok) := t :: lexPrefixAux f cs
+      match ch, cs with
+      | '.', d :: rest =>
+        if isDigit d then
+          let (frac, rest') := spanChars isDigit (d :: rest)
+          Tok.float (String.ofList ('.' :: frac)) :: lexPrefixAux f rest'
+        else if d = '.' then Tok.range :: lexPrefixAux f rest
+        else one .dot
+      | '.', [] => one .dot
+      | '<', '-' :: '-' :: rest => Tok.larrow :: lexPrefixAux f rest
+      | '<', '-' :: rest => Tok.requires :: lexPrefixAux f rest
+      | '-', '-' :: '>' :: rest => Tok.rarrow :: lexPrefixAux f rest
+      | '-', '>' :: rest => Tok.leadsto :: lexPrefixAux f rest
+      | '-', _ => one .minus
+      | '+', '>' :: rest => Tok.inherits :: lexPrefixAux f rest
+      | '+', _ => one .plus
+      | '/', '/' :: rest => lexPrefixAux f (spanChars (fun x => x ≠ '\n' && x ≠ '\r') rest).2
+      | '/', '*' :: rest => (match skipBlock rest with | some r => lexPrefixAux f r | none => one .divide)
+      | '/', '\\' :: rest => Tok.intersect :: lexPrefixAux f rest
+      | '/', _ => one .divide
+      | '\\', '/' :: rest => Tok.union :: lexPrefixAux f rest
+      | '!', 'E' :: rest => Tok.notExists :: lexPrefixAux f rest
+      | '(', _ => one .lparen | ')', _ => one .rparen | '{', _ => one .lcurly | '}', _ => one .rcurly
+      | '#', _ => one .hash | ':', _ => one .colon | '[', _ => one .lsquare | ']', _ => one .rsquare
+      | '*', _ => one .star | '=', _ => one .assign | '&', _ => one .and_ | '|', _ => one .or_
+      | '@', _ => one .at | ',', _ => one .comma | '^', _ => one .power
+      | _, _ => []
+
+
+def lexPrefix (src : String) : List Tok := lexPrefixAux (src.length + 1) src.toList
+
 def lex (src : String) : Option (List Tok) := lexAux (src.length + 1) src.toList
 
 end MalVerif.Mal
